@@ -243,26 +243,29 @@ struct verif_node
     int sub[VERIF_MAXSUB];
     int sym;
     int value;
+    double dvalue;
     /* ghost summaries (the callee's contract for everything below this node) */
     bool g_changes; /* changes_any_variable()                                   */
     unsigned g_writes; /* W(e): symbols possibly written                          */
     unsigned g_reads;  /* R(e): symbols possibly read                             */
-    bool g_a, g_b, g_c, g_d; /* property specific                                   */
+    bool g_a, g_b, g_c, g_d, g_e, g_f; /* property specific                         */
 };
 extern verif_node verif_nodes[VERIF_NNODES];
 
 class expression_t
 {
 public:
-    int id;
-    expression_t(): id(-1) {}
-    explicit expression_t(int i): id(i) {}
+    /* as in the real class, `data` is the (shared) pointer to the node; a raw pointer here
+       (the slices never name shared_ptr).  data == nullptr is the empty expression. */
+    verif_node* data;
+    expression_t(): data(nullptr) {}
+    explicit expression_t(int i): data(i >= 0 ? &verif_nodes[i] : nullptr) {}
     verif_node& N() const
     {
-        __CPROVER_assert(id >= 0 && id < VERIF_NNODES, "stub: expression handle in range (non-empty expression)");
-        return verif_nodes[id];
+        __CPROVER_assert(data != nullptr, "stub: expression is non-empty (the real accessor asserts data)");
+        return *data;
     }
-    bool empty() const { return id < 0; }
+    bool empty() const { return data == nullptr; }
     kind_t get_kind() const { return N().kind; }
     type_t get_type() const { return N().type; }
     void set_type(type_t t) { N().type = t; }
@@ -275,11 +278,33 @@ public:
     }
     expression_t get(uint32_t i) const { return (*this)[i]; }
     symbol_t get_symbol() const { return symbol_t(N().sym); }
-    int32_t get_value() const { return N().value; }
+    /* the REAL accessors assert the variant alternative they read (expression.cpp get_value /
+       get_double_value); the stub carries those asserts verbatim as code obligations */
+    int32_t get_value() const
+    {
+        __CPROVER_assert(data && data->kind == Constants::CONSTANT && (data->type.is_integral() || data->kind == Constants::VAR_INDEX),
+                         "code-assert: get_value(): data && data->kind == CONSTANT && (data->type.is_integral() || data->kind == VAR_INDEX)");
+        return N().value;
+    }
+    double get_double_value() const
+    {
+        __CPROVER_assert(data && data->kind == Constants::CONSTANT && data->type.is(Constants::DOUBLE),
+                         "code-assert: get_double_value(): data->kind == CONSTANT && data->type.is(DOUBLE)");
+        return N().dvalue;
+    }
     bool changes_any_variable() const { return N().g_changes; }
-    bool operator==(const expression_t& o) const { return id == o.id; }
+    bool operator==(const expression_t& o) const { return data == o.data; }
     /* abstract structural equality: identity of the handle (an equivalence relation) */
-    bool equal(const expression_t& o) const { return id == o.id; }
+    bool equal(const expression_t& o) const { return data == o.data; }
+
+    /* REAL members sliced from src/expression.cpp (defined in the TU that includes them) */
+    bool uses_fp() const;
+    bool uses_clock() const;
+    bool uses_hybrid() const;
+    /* contracts of the same members on a child (rule L12): the child's ghost summary */
+    bool uses_fp__contract() const { return data != nullptr && data->g_a; }
+    bool uses_hybrid__contract() const { return data != nullptr && data->g_b; }
+    bool uses_clock__contract() const { return data != nullptr && data->g_c; }
 };
 
 /* handleError / handleWarning of TypeChecker: ghost counters + message id.  Overloads
